@@ -128,6 +128,13 @@ def sort_xml_attrs(w):
 TOKNAMES = {int(t): t.name for t in simplemrs.SimpleMRSLexer.tokentypes}
 
 
+IXTOKNAMES = {int(t): t.name for t in indexedmrs._IndexedMRSLexer.tokentypes}
+
+
+def real_lex_ix(text):
+    return [[IXTOKNAMES[gid], cps(tok)] for gid, tok, _, _, _ in indexedmrs._IndexedMRSLexer.prelex(text.splitlines())]
+
+
 def real_lex(text):
     """token stream of the real lexer: [[kind name, text of the class's group]]"""
     return [[TOKNAMES[gid], cps(tok)] for gid, tok, _, _, _ in simplemrs.SimpleMRSLexer.prelex(text.splitlines())]
@@ -355,6 +362,29 @@ def ix_semi(preds=None):
             _SEMIS[key] = dsemi.SemI(variables=IX_VARS, properties=IX_PROPS,
                                      roles={r: {"value": v} for r, v in IX_ROLES.items()}, predicates=pd)
     return _SEMIS[key]
+
+
+def _descendants(table):
+    kids = {}
+    for k, d in table.items():
+        for p_ in d.get("parents", []):
+            kids.setdefault(p_, []).append(k)
+
+    def desc(k, seen):
+        for c_ in kids.get(k, []):
+            if c_ not in seen:
+                seen.append(c_)
+                desc(c_, seen)
+        return seen
+    return [[cps(k), [cps(x) for x in desc(k, [])]] for k in table]
+
+
+def semi_wire(preds):
+    """the SEM-I as the Lean driver reads it (tables computed from the same literals the SemI object is built from)"""
+    return {"preds": [[cps(p), [[[cps(r), cps(v), bool(o)] for r, v, o in syn] for syn in syns]] for p, syns in preds.items()],
+            "vprops": [[cps(k), [[cps(a.upper()), cps(b.lower())] for a, b in d.get("properties", [])]]
+                       for k, d in IX_VARS.items()],
+            "sub": _descendants(IX_VARS), "psub": _descendants(IX_PROPS)}
 
 
 IX_VOCAB = ["_rain_v_1", "_dog_n_1", "_bark_v_1", "_chase_v_1", "_the_q", "named", "card", "neg"]
@@ -695,7 +725,8 @@ class C01(Check):
         "the regex lexer of SimpleMRS and the text layout of the encoders are not modelled: the model's token "
         "encoder is compared with the REAL lexer's token stream of the REAL encoder's text, the model's parser "
         "with the real decoder on real token streams",
-        "Indexed MRS is not modelled (direct oracle only)",
+        "Indexed MRS: the model receives the SEM-I as tables (synopses, property lists per sort, descendants of "
+        "both hierarchies) computed by the harness from the same literals the SemI object is built from",
         "case folding (str.lower/upper) is modelled on ASCII; generated atoms that get case-folded contain only "
         "characters on which Python's lower()/upper() agree with that",
         "alignment equality for MRX/MRS-JSON is equality of (cfrom, cto): that is all these formats carry",
@@ -878,7 +909,7 @@ class C01(Check):
             return j_to_wire(json.loads(json.dumps(mrsjson.to_dict(m, properties=props, lnk=lnk))))
         if codec == "mrx":
             return xml_to_wire(etree.fromstring(mrx.encode(m, properties=props, lnk=lnk)))
-        return cps(indexedmrs.encode(m, semi or ix_semi(), properties=props, lnk=lnk))
+        return real_lex_ix(indexedmrs.encode(m, semi or ix_semi(), properties=props, lnk=lnk))
 
     def impl(self, case):
         k = case["kind"]
@@ -894,14 +925,14 @@ class C01(Check):
                 text = c.encode(m, properties=props, lnk=lnk)
             except Exception as e:
                 return {"err": errname(e)}
-            key = {"simple": "toks", "json": "dict", "mrx": "xml", "indexed": "text"}[codec]
-            rekey = {"simple": "retoks", "json": "redict", "mrx": "rexml", "indexed": "retext"}[codec]
+            key = {"simple": "toks", "json": "dict", "mrx": "xml", "indexed": "toks"}[codec]
+            rekey = {"simple": "retoks", "json": "redict", "mrx": "rexml", "indexed": "retoks"}[codec]
             try:
                 d = c.decode(text)
             except Exception as e:
-                return {key: first, "dec": {"err": errname(e) if codec == "simple" else "Exception"}}
+                return {key: first, "dec": {"err": errname(e) if codec in ("simple", "indexed") else "Exception"}}
             out = {key: first, "dec": m_to_wire(d)}
-            if codec == "simple":
+            if codec in ("simple", "indexed"):
                 out["rest"] = 0
             try:
                 out[rekey] = self.inter(codec, d, props, lnk, sm)
@@ -950,9 +981,12 @@ class C01(Check):
     def model_request(self, case):
         k = case["kind"]
         if k == "rt":
-            if case["codec"] == "indexed" or not case["items"]:
+            if not case["items"]:
                 return None
-            return {"op": case["codec"], "m": case["items"][0], "props": case["props"], "lnk": case["lnk"]}
+            req = {"op": case["codec"], "m": case["items"][0], "props": case["props"], "lnk": case["lnk"]}
+            if case["codec"] == "indexed":
+                req["semi"] = semi_wire(case.get("semi") or IX_PREDS)
+            return req
         if k == "parse":
             try:
                 toks = real_lex(uncps(case["text"]))
